@@ -38,10 +38,10 @@ func init() {
 	)
 	addMutants("C14",
 		mutant{"flush-without-drain", "pkg/persistence/lazy_aof.go", "\t\tcase cmd := <-lw.cmdCh:\n\t\t\tdrainPending()\n", "\t\tcase cmd := <-lw.cmdCh:\n\t\t\t_ = drainPending\n", "ORD-5", "arm:cmdFlush"},
-		mutant{"shadow-writes-dropped-on-failure", "pkg/engine/recovery.go", "\t\t\tfor _, write := range pending {\n\t\t\t\tif err := e.AOF.Write(write); err != nil {\n\t\t\t\t\tslog.Error(\"Failed to re-append shadow write after failed snapshot\", \"error\", err)\n\t\t\t\t}\n\t\t\t}\n", "\t\t\t_ = pending\n", "ORD-4", "saveSnapshotLocked"},
+		mutant{"shadow-writes-dropped-on-failure", "pkg/engine/recovery.go", "\t\t\tif _, err := e.AOF.EndSnapshotModeRequeue(); err != nil {\n\t\t\t\tslog.Debug(\"Failed to end snapshot mode during cleanup\", \"error\", err)\n\t\t\t}\n", "\t\t\tif _, err := e.AOF.EndSnapshotMode(); err != nil {\n\t\t\t\tslog.Debug(\"Failed to end snapshot mode during cleanup\", \"error\", err)\n\t\t\t}\n", "ORD-4", "saveSnapshotLocked"},
 		mutant{"log-closed-before-background-stops", "pkg/engine/engine.go", "\t\te.wg.Wait() // Wait for background tasks\n", "", "ORD-8", "wg.Wait"},
 		mutant{"bare-send-to-writer", "pkg/persistence/lazy_aof.go", "\tselect {\n\tcase <-lw.closedCh:\n\t\treturn fmt.Errorf(\"cannot write to closed LazyAOFWriter\")\n\tcase lw.writeCh <- writeRequest{data: data}:\n\t\treturn nil\n\t}", "\tlw.writeCh <- writeRequest{data: data}\n\treturn nil", "ORD-6", "send@"},
-		mutant{"end-before-truncate", "pkg/engine/recovery.go", "\t// STEP 5: Truncate AOF\n\t// Any writes that occurred during snapshot are still in the shadow buffer\n\tif err := e.AOF.Truncate(); err != nil {\n\t\treturn fmt.Errorf(\"failed to truncate AOF: %w\", err)\n\t}\n\n\t// STEP 6: End snapshot mode and get accumulated writes\n\tsnapshotWrites, err := e.AOF.EndSnapshotMode()\n\tif err != nil {\n\t\treturn fmt.Errorf(\"failed to end snapshot mode: %w\", err)\n\t}\n", "\tsnapshotWrites, err := e.AOF.EndSnapshotMode()\n\tif err != nil {\n\t\treturn fmt.Errorf(\"failed to end snapshot mode: %w\", err)\n\t}\n\tif err := e.AOF.Truncate(); err != nil {\n\t\treturn fmt.Errorf(\"failed to truncate AOF: %w\", err)\n\t}\n", "ORD-1", "AOF.Truncate<EndSnapshotMode"},
+		mutant{"end-before-truncate", "pkg/engine/recovery.go", "\t// STEP 5: Truncate AOF\n\t// Any writes that occurred during snapshot are still in the shadow buffer\n\tif err := e.AOF.Truncate(); err != nil {\n\t\treturn fmt.Errorf(\"failed to truncate AOF: %w\", err)\n\t}\n\n\t// STEP 6: End snapshot mode and get accumulated writes\n\t// The writer re-queues them itself, in the step that ends snapshot mode: a\n\t// write acknowledged right after that step must not get into the log ahead of\n\t// the older shadow writes (replay would end with the older value).\n\tsnapshotWrites, err := e.AOF.EndSnapshotModeRequeue()\n\tif err != nil {\n\t\treturn fmt.Errorf(\"failed to end snapshot mode: %w\", err)\n\t}\n", "\tsnapshotWrites, err := e.AOF.EndSnapshotModeRequeue()\n\tif err != nil {\n\t\treturn fmt.Errorf(\"failed to end snapshot mode: %w\", err)\n\t}\n\tif err := e.AOF.Truncate(); err != nil {\n\t\treturn fmt.Errorf(\"failed to truncate AOF: %w\", err)\n\t}\n", "ORD-1", "AOF.Truncate<EndSnapshotMode"},
 	)
 	addMutants("C05",
 		mutant{"dimension-check-after-journal", "pkg/engine/ops.go", "\t// 1. Serialize inputs for AOF (before any mutation).\n\tvecStr := float32SliceToHexString(vector)", "\t// 1. Serialize inputs for AOF (before any mutation).\n\tif err := e.AOF.Write(\"x\"); err != nil {\n\t\treturn err\n\t}\n\tif len(vector) > 70000 {\n\t\treturn fmt.Errorf(\"vector too large\")\n\t}\n\tvecStr := float32SliceToHexString(vector)", "JRN-3", "error:vector_too_large"},
@@ -724,5 +724,33 @@ func init() {
 		mutant{"bulk-insert-searches-the-whole-batch-first", "pkg/core/hnsw/hnsw_index.go", "\tfor roundStart, roundSize := 0, 1; roundStart < len(allNewNodes); {\n", "\t{\n\t\troundStart, roundSize := 0, len(allNewNodes)\n", "GRD-batchrounds", "search-and-commit-in-one-loop"},
 		mutant{"bulk-insert-in-one-round", "pkg/core/hnsw/hnsw_index.go", "\tfor roundStart, roundSize := 0, 1; roundStart < len(allNewNodes); {\n", "\tfor roundStart, roundSize := 0, len(allNewNodes); roundStart < len(allNewNodes); {\n", "GRD-batchrounds", "search-and-commit-in-one-loop"},
 		mutant{"benign:bulk-rounds-start-with-a-larger-seed", "pkg/core/hnsw/hnsw_index.go", "const batchLinkSeed = 32\n", "const batchLinkSeed = 64\n", "silent", ""},
+	)
+}
+
+// round 6
+func init() {
+	inv := mutant{"shadow-writes-re-appended-by-the-engine", "pkg/engine/recovery.go", "\tshadowWrites, endErr := e.AOF.EndSnapshotModeRequeue()\n\tsnapshotDone = true\n\tif endErr != nil {\n\t\treturn fmt.Errorf(\"rewrite: end snapshot mode: %w\", endErr)\n\t}\n\n\t// The shadow writes are back in the writer's queue (ahead of any newer\n\t// write): get them into the freshly replaced AOF.\n\tif shadowWrites > 0 {\n\t\tslog.Debug(\"rewrite: replaying shadow writes\", \"count\", shadowWrites)\n", "\tpendingWrites, endErr := e.AOF.EndSnapshotMode()\n\tsnapshotDone = true\n\tif endErr != nil {\n\t\treturn fmt.Errorf(\"rewrite: end snapshot mode: %w\", endErr)\n\t}\n\tshadowWrites := len(pendingWrites)\n\n\tif shadowWrites > 0 {\n\t\tslog.Debug(\"rewrite: replaying shadow writes\", \"count\", shadowWrites)\n\t\tfor _, data := range pendingWrites {\n\t\t\te.AOF.Write(data)\n\t\t}\n", "ORD-12", "Engine.RewriteAOF:end-of-snapshot-mode"}
+	addMutants("C14", inv)
+	addMutants("C01", inv)
+	addMutants("C14",
+		mutant{"requeue-arm-forgets-the-queue", "pkg/persistence/lazy_aof.go", "\t\t\t\t\tif cmd.kind == cmdEndSnapshotRequeue && fatalErr == nil {\n\t\t\t\t\t\t// Same goroutine that owns the queue: nothing can get in between.\n\t\t\t\t\t\tbuffer = append(buffer, writes...)\n\t\t\t\t\t}\n", "", "ORD-12", "LazyAOFWriter.run:requeue-arm"},
+		mutant{"replay-drops-metadata-of-an-existing-node", "pkg/engine/recovery.go", "\t\t\t\tif existing, found := hnswIdx.GetInternalID(id); found && len(e.DB.GetMetadataForNode(name, existing)) == 0 {\n\t\t\t\t\tinternalID, err = existing, nil\n\t\t\t\t}\n", "", "CDC-13", "metadata-also-when-the-node-exists"},
+	)
+	addMutants("C02",
+		mutant{"drop-record-not-flushed-before-the-arena-goes", "pkg/engine/ops.go", "\tif err := e.AOF.Flush(); err != nil {\n\t\treturn fmt.Errorf(\"persistence flush failed: %w\", err)\n\t}\n\n\terr := e.DB.DeleteVectorIndex(name)", "\terr := e.DB.DeleteVectorIndex(name)", "ORD-13", "record-flushed-before-files-are-destroyed"},
+		mutant{"drop-flush-error-ignored", "pkg/engine/ops.go", "\tif err := e.AOF.Flush(); err != nil {\n\t\treturn fmt.Errorf(\"persistence flush failed: %w\", err)\n\t}\n\n\terr := e.DB.DeleteVectorIndex(name)", "\t_ = e.AOF.Flush()\n\n\terr := e.DB.DeleteVectorIndex(name)", "ORD-13", "record-flushed-before-files-are-destroyed"},
+		mutant{"arena-removed-again-in-the-background", "pkg/engine/ops.go", "\tslog.Info(\"[Engine] Index deleted from DB\", \"index\", name)\n", "\tslog.Info(\"[Engine] Index deleted from DB\", \"index\", name)\n\tgo func(path string) {\n\t\t_ = os.RemoveAll(path)\n\t}(filepath.Join(e.opts.DataDir, \"arenas\", name))\n", "GRD-asyncrm", "Engine.VDeleteIndex:go#1"},
+	)
+	moreEdits["arena-removed-again-in-the-background"] = []edit{{"pkg/engine/ops.go", "\t\"log/slog\"\n", "\t\"log/slog\"\n\t\"os\"\n"}}
+	addMutants("C05",
+		mutant{"metric-precision-checked-after-the-journal-write", "pkg/engine/ops.go", "\tif err := hnsw.ValidateMetricPrecision(metric, prec); err != nil {\n\t\treturn err\n\t}\n", "", "JRN-6", "ValidateMetricPrecision:before-the-journal-write"},
+	)
+}
+
+func init() {
+	addMutants("C19",
+		mutant{"negative-k-reaches-the-fusion-cut", "pkg/engine/ops.go", "\tif k <= 0 {\n\t\treturn []fusedResult{}, nil\n\t}\n", "", "GRD-alloc", "Engine.searchWithFusion:bound"},
+		mutant{"huge-refine-batch-wraps-the-window", "pkg/core/hnsw/optimizer.go", "\tif batchSize > totalNodes {\n\t\tbatchSize = totalNodes\n\t}\n", "", "GRD-alloc", "GraphOptimizer.Refine:make-slice"},
+		mutant{"profile-page-window-wraps", "internal/mcp/service.go", "\tif limit > len(ids)-start {\n\t\tlimit = len(ids) - start\n\t}\n", "", "GRD-alloc", "Service.ListUserProfiles:bound"},
 	)
 }
